@@ -5,7 +5,7 @@ SameTrees (identical expression trees: node kinds, atom spellings, quoting, brac
 ordered list of (comment, number of expression starts before it) is identical).  Inputs: every accepted string
 of the Reader enumeration that contains a comment, a hash-bang or a blank line, seeded programs with comments /
 blank lines / #! inserted in every separator position, and the repository's own .lisp files.  Each is formatted
-by the real formatter under four configurations; the real lexer's tokens of input and output are fed back into
+by the real formatter under five configurations; the real lexer's tokens of input and output are fed back into
 the specification, which decides the relation (binding B3).  Idempotence, "output is accepted by the strict
 reader", and "rejected input produces no output" are evaluated on the real answers.
 """
@@ -21,7 +21,7 @@ CONSTANTS MAXLEN = 1
  ALPHA = {"a"}
 CHECK_DEADLOCK FALSE
 """
-MODES = ["default", "compact", "compact-strip", "indent4-norules"]
+MODES = ["default", "compact", "compact-strip", "indent4-norules", "strip"]
 
 
 def toks(ts):
@@ -242,7 +242,7 @@ def _run(V, work, tier):
         t, o, mode = meta[cid]
         if not vd["trees"]:
             V.add(None, "formatting (%s) changes the expression trees (spellings, quoting or bracket kinds)" % mode, {"text": t[:2000], "out": o[:2000]})
-        elif mode != "compact-strip" and not vd["anchors"]:
+        elif mode not in ("compact-strip", "strip") and not vd["anchors"]:
             V.add("compact-drops-comments" if mode == "compact" and vd["nout"] < vd["nin"] else None,
                   "formatting (%s) loses, reorders or re-attaches a comment (%d comments in, %d out)" % (mode, vd["nin"], vd["nout"]), {"text": t[:2000], "out": o[:2000]})
     V.sample({"input": inputs[0][:200], "default_out": real[0]["format"]["default"].get("out", "")[:200]})
@@ -253,5 +253,5 @@ def _run(V, work, tier):
     V.coverage["rejected_inputs"] = len(rejected)
     V.coverage["traces_validated_against_impl"] = len(cases)
     V.coverage["exhaustive"] = False
-    V.coverage["explanation"] = "%d accepted inputs (%d enumerated class strings with comments/newlines, %d commented programs, %d repository files) x 4 configurations; %d rejected inputs" % (len(inputs), len(texts), len(progs_), len(files), len(rejected))
+    V.coverage["explanation"] = "%d accepted inputs (%d enumerated class strings with comments/newlines, %d commented programs, %d repository files) x 5 configurations; %d rejected inputs" % (len(inputs), len(texts), len(progs_), len(files), len(rejected))
     return V.finish()
